@@ -4,6 +4,8 @@ import (
 	"context"
 	"errors"
 	"fmt"
+	"net"
+	"os"
 	"reflect"
 	"testing"
 	"time"
@@ -117,6 +119,16 @@ func drawResponse(c *choice.Stream, cf *Conf, maxPackets int) *respScenario {
 			rs.failName = present[c.Draw("cb.fail.name", len(present))]
 			rs.failN = 1 + c.Draw("cb.fail.n", 3)
 			rs.rec.FailAt = map[string]int{rs.failName: rs.failN}
+			switch c.Draw("cb.fail.kind", 4) {
+			case 1:
+				// the callback forwards rows to a socket of its own and returns its timeout
+				rs.rec.FailWith = fmt.Errorf("forward rows: %w", &net.OpError{Op: "write", Net: "tcp", Err: os.ErrDeadlineExceeded})
+			case 2:
+				// ... or the exception of a query it ran elsewhere
+				rs.rec.FailWith = fmt.Errorf("lookup in callback: %w", &ch.Exception{Code: 60, Name: "DB::Exception", Message: "DB::Exception: Table default.other does not exist"})
+			case 3:
+				rs.rec.FailWith = fmt.Errorf("callback gave up: %w", context.Canceled)
+			}
 		}
 	}
 	// the query
@@ -274,7 +286,7 @@ func (rs *respScenario) checkOutcome(r *Result, err error, tag string) {
 	case "callback":
 		if err == nil {
 			r.Violate("return-value", "ret:callback-error-lost:"+tag, "callback %s failed at its invocation %d, but Do returned nil", rs.failName, rs.failN)
-		} else if !errors.Is(err, ErrInjected) {
+		} else if want := rs.failErr(); !errors.Is(err, want) {
 			r.Violate("return-value", "ret:callback-error-replaced:"+tag, "callback %s failed at its invocation %d, but Do returned %v, from which the callback's error cannot be recovered", rs.failName, rs.failN, err)
 		}
 	case "no-onresult":
@@ -455,4 +467,12 @@ func runC03(t *testing.T, c *choice.Stream, r *Result, opt RunOpt) {
 			}
 		}
 	})
+}
+
+// failErr is the error the failing callback returns.
+func (rs *respScenario) failErr() error {
+	if rs.rec.FailWith != nil {
+		return errors.Unwrap(rs.rec.FailWith)
+	}
+	return ErrInjected
 }
